@@ -457,7 +457,7 @@ func c09LockPairing(c *Ctx) {
 			c.Check(okp, rule, fmt.Sprintf("%s %s in %s", op, key[strings.LastIndex(key, ".")+1:], shortFn(fn)), ci.Pos(), "released by "+want+" on every exit", "a "+op+" is not followed by "+want+" on every exit"+msg+": the next connection blocks forever")
 		}
 	}
-	c.Floor(rule, 4, "registry (3) + Tunnel.Write")
+	c.Floor(rule, 2, "registry + Tunnel.Write (three registry sites on the pinned tree; a shared lock wrapper makes it one)")
 	_ = n
 }
 
